@@ -53,6 +53,35 @@ fn run(a: &vhcore::Args) -> i32 {
             rep.violation(&key, &format!("{}: debug vs release: {msg}", case.desc), rj);
         }
     }
+    // Space S5: the e2e "run" corpus, debug vs release
+    let s5_work = vhcore::verif_root().join("work").join("C02-s5");
+    let _ = std::fs::remove_dir_all(&s5_work);
+    let (s5, _skipped) = vh_comp::s5::run_s5(&pool, &s5_work, if thorough { 1 } else { 6 });
+    let mut s5_pairs = 0u64;
+    for (case, resp) in &s5 {
+        if let Ok(r) = resp {
+            let (d, rl) = (&r.builds[0], &r.builds[1]);
+            if d.ok && rl.ok {
+                s5_pairs += 1;
+                pairs += 1;
+                if d.script != rl.script {
+                    rep.violation(
+                        &format!("C02|S5|{}", case.name),
+                        &format!("S5 {}: debug {:?} vs release {:?}", case.name, d.script, rl.script),
+                        json!({"e2e_test": case.name, "dir": case.src_dir, "script_data": hex::encode(&case.script_data)}),
+                    );
+                }
+            } else if d.ok != rl.ok {
+                rep.violation(
+                    &format!("C02|S5|builds-in-one-profile-only|{}", case.name),
+                    &format!("S5 {}: debug ok={} ({}) release ok={} ({})", case.name, d.ok, d.error, rl.ok, rl.error),
+                    json!({"e2e_test": case.name, "dir": case.src_dir}),
+                );
+            }
+        }
+    }
+    let _ = std::fs::remove_dir_all(&s5_work);
+    rep.set("s5_e2e_pairs", s5_pairs);
     if outcomes.len() < 2 {
         vhcore::machinery_failure("vacuous: fewer than 2 distinct outcomes");
     }
